@@ -138,6 +138,21 @@ def run_c05(rep, tier, seed):
             else:
                 rep.validated()
     rep.sample({"scenario": scs[3]["s"], "expected_counts": scs[3]["counts"]}, limit=2)
+    # ---- (2b) nothing to bin under automatic limits: no points at all, no finite point on an axis, no positive point on a log axis -
+    # an empty histogram (every bin masked), as with explicit limits
+    for xs0, ys0, kw0 in (([], [], {}), ([np.nan, np.nan], [1.0, 2.0], {}), ([1.0, 2.0], [-1.0, -2.0], {"logy": True}), ([np.inf], [1.0], {"logx": True})):
+        for n0 in (1, 4):
+            rep.case(klass=("histogram2d-nothing", len(xs0), n0, tuple(kw0)))
+            try:
+                with np.errstate(all="ignore"):
+                    p = osyris.histogram2d(osyris.Array(np.array(xs0, dtype=float), unit="m"), osyris.Array(np.array(ys0, dtype=float), unit="s"), resolution=n0, plot=False, **kw0)
+                data = p.layers[0]["data"]
+                if not np.ma.getmaskarray(data).all() or np.ma.filled(data, 0).sum() != 0:
+                    rep.mismatch({"module": "HistMachine", "field": "histogram2d-nothing"}, f"histogram2d of x={xs0} y={ys0} {kw0}: bins are not all empty and masked: {np.ma.filled(data, 0).tolist()}", case={"xs": xs0, "ys": ys0}, module="hist")
+                else:
+                    rep.validated()
+            except Exception as e:
+                rep.mismatch({"module": "HistMachine", "field": "histogram2d-raises"}, f"histogram2d of x={xs0} y={ys0} {kw0} (nothing to bin, automatic limits) raised {type(e).__name__}: {e}", case={"xs": xs0, "ys": ys0}, module="hist")
     # ---- (3) automatic limits, log axes, non-finite entries: the grid the call reports must span all finite points and bin them by floor
     nauto = 150 if tier == "quick" else 1500
     for j in range(nauto):
